@@ -39,7 +39,8 @@ class Infra(Exception):
 def import_ford():
     """Import the implementation from REPO and make sure that is what we got."""
     os.environ.setdefault("FORD_DEBUGGING", "1")  # no rich progress bars
-    os.environ["PATH"] = "/venv/bin:" + os.environ.get("PATH", "")
+    if not os.environ.get("PATH", "").startswith("/venv/bin:"):
+        os.environ["PATH"] = "/venv/bin:" + os.environ.get("PATH", "")
     if str(REPO) not in sys.path:
         sys.path.insert(0, str(REPO))
     import ford  # noqa
